@@ -378,7 +378,52 @@ func lengthAccounting(p *Prog, r *Report, rule string) {
 				}
 			}
 		})
-		r.Check(okMake && okAdv, rule, fnKey(f)+": buffer of d.len bytes, index advanced by GetLength()", p.pos(f.Pos()), "sizing and advancing use the reported lengths", "the record buffer is not sized by the accumulated length or the write index is not advanced by each element's GetLength()", true)
+		// the index phi of the loop: every back edge carries index + GetLength() of the loop's element (also after an encode error)
+		okEvery := false
+		eachInstr(f, func(in ssa.Instruction) {
+			ph, ok := in.(*ssa.Phi)
+			if !ok || ph.Comment != "index" {
+				return
+			}
+			okEvery = true
+			for i, e := range ph.Edges {
+				pred := ph.Block().Preds[i]
+				if !ph.Block().Dominates(pred) {
+					continue // loop entry
+				}
+				b, ok := e.(*ssa.BinOp)
+				if !ok || b.Op != token.ADD || b.X != ssa.Value(ph) {
+					okEvery = false
+					continue
+				}
+				c, ok := b.Y.(*ssa.Call)
+				if !ok || calleeName(&c.Call) != "iface:pkg/entities.InfoElementWithValue.GetLength" {
+					okEvery = false
+				}
+			}
+		})
+		// every element of the list is handed to the encoder (no element is skipped as "empty": false is 2, -0.0 has a sign bit)
+		var encCall *ssa.Call
+		eachInstr(f, func(in ssa.Instruction) {
+			if c, ok := in.(*ssa.Call); ok && c.Call.StaticCallee() != nil && c.Call.StaticCallee().Name() == "encodeInfoElementValueToBuff" {
+				encCall = c
+			}
+		})
+		okEnc := false
+		if encCall != nil {
+			if _, isR := rangeElem(encCall.Call.Args[0]); isR {
+				if lh := loopHeadOf(encCall.Block()); lh != nil {
+					body := lh.Succs[0]
+					q := &pathQuery{loopHead: lh, noExit: true, discharge: func(in ssa.Instruction) bool { return in == ssa.Instruction(encCall) }}
+					_, bad := q.findFromBlock(body)
+					okEnc = !bad
+				}
+			}
+		}
+		r.Check(okEnc, rule, fnKey(f)+": every element is encoded", p.pos(f.Pos()), "each iteration passes encodeInfoElementValueToBuff(element, ...) for the loop's element",
+			"an element can be skipped without being encoded (its bytes stay zero): values whose encoding is not all-zero (boolean false = 2, -0.0) are altered", true)
+		r.Check(okMake && okAdv && okEvery, rule, fnKey(f)+": buffer of d.len bytes, index advanced by GetLength()", p.pos(f.Pos()), "sizing uses the accumulated length; every iteration (also after an encode error) advances the index by the element's GetLength()",
+			"the record buffer is not sized by the accumulated length, or an iteration can continue without advancing the write index by the element's GetLength(): the following fields are written at the wrong offsets", true)
 	}
 	// accumulation sites
 	for _, k := range []string{"pkg/entities.NewDataRecordFromElements", "(*pkg/entities.dataRecord).AddInfoElement"} {
